@@ -118,6 +118,30 @@ Fixpoint block_loop (fuel : nat) (L : lang) (start stop : list rune) (nesting : 
       end
   end.
 
+(* the repaired multi-line loop: delimiters are tested before a rune is taken
+   as content, so an empty comment ("/**/") and a nested start directly after
+   the start delimiter are recognised *)
+Fixpoint block_loop_fixed (fuel : nat) (L : lang) (start stop : list rune) (nesting : nat)
+         (i : inp) (content : list rune) : loopres :=
+  match fuel with
+  | O => LFuel
+  | S f =>
+    if eof i then LEOF
+    else
+      match (if l_nested L then matchs start i else None) with
+      | Some i' => block_loop_fixed f L start stop (S nesting) i' (rev start ++ content)
+      | None =>
+        match matchs stop i with
+        | Some i' =>
+          match nesting with
+          | O => LDone i' content
+          | S n => block_loop_fixed f L start stop n i' (rev stop ++ content)
+          end
+        | None => let '(c, i1) := read i in block_loop_fixed f L start stop nesting i1 (c :: content)
+        end
+      end
+  end.
+
 (* the single-line comment loop: stops in front of the newline *)
 Fixpoint line_loop (fuel : nat) (i : inp) (content : list rune) : loopres :=
   match fuel with
@@ -153,7 +177,12 @@ Definition after_lexeme (swallow : bool) (i : inp) : inp := if swallow then skip
 
 Definition triple (c : rune) : list rune := [c; c; c].
 
-Fixpoint lex (fuel : nat) (swallow : bool) (L : lang) (i : inp) (acc : list comment)
+(* [swallow]: see above.  [bfix]: use the repaired multi-line loop. *)
+Record variant := { swallow : bool; bfix : bool }.
+Definition original : variant := {| swallow := true; bfix := false |}.
+Definition repaired : variant := {| swallow := false; bfix := true |}.
+
+Fixpoint lex (fuel : nat) (V : variant) (L : lang) (i : inp) (acc : list comment)
   : option (list comment) :=
   match fuel with
   | O => None
@@ -163,9 +192,9 @@ Fixpoint lex (fuel : nat) (swallow : bool) (L : lang) (i : inp) (acc : list comm
     | c :: _ =>
       let n := S (length (rest i)) in
       if is_quote_rune c then
-        if l_html L then lex f swallow L (skip1 i) acc
+        if l_html L then lex f V L (skip1 i) acc
         else match quote_info L c with
-             | None => lex f swallow L (skip1 i) acc
+             | None => lex f V L (skip1 i) acc
              | Some esc =>
                let '(quote, isdoc, i1) :=
                    if l_python L && negb (N.eqb c BT) then
@@ -182,18 +211,18 @@ Fixpoint lex (fuel : nat) (swallow : bool) (L : lang) (i : inp) (acc : list comm
                  let acc' := if isdoc
                              then {| c_start := start_line; c_end := line i2; c_text := rev content |} :: acc
                              else acc in
-                 lex f swallow L (after_lexeme swallow i2) acc'
+                 lex f V L (after_lexeme (swallow V) i2) acc'
                end
              end
       else
         match multi_start L i with
         | Some (i1, start, stop) =>
           let start_line := line i1 in
-          match block_loop n L start stop O i1 [] with
+          match (if bfix V then block_loop_fixed else block_loop) n L start stop O i1 [] with
           | LFuel => None
           | LEOF => Some (rev acc)
           | LDone i2 content =>
-            lex f swallow L (after_lexeme swallow i2)
+            lex f V L (after_lexeme (swallow V) i2)
                 ({| c_start := start_line; c_end := line i2; c_text := rev content |} :: acc)
           end
         | None =>
@@ -205,10 +234,10 @@ Fixpoint lex (fuel : nat) (swallow : bool) (L : lang) (i : inp) (acc : list comm
             | LEOF => Some (rev acc)
             | LDone i2 content =>
               (* unreadRune('\n'), comment appended, final readRune eats the newline *)
-              lex f swallow L (skip1 i2)
+              lex f V L (skip1 i2)
                   ({| c_start := start_line; c_end := line i2; c_text := rev content |} :: acc)
             end
-          | None => lex f swallow L (skip1 i) acc
+          | None => lex f V L (skip1 i) acc
           end
         end
     end
@@ -218,11 +247,11 @@ Fixpoint lex (fuel : nat) (swallow : bool) (L : lang) (i : inp) (acc : list comm
 Definition ends_with_nl (s : list rune) : bool :=
   match rev s with c :: _ => N.eqb c NL | [] => false end.
 
-Definition parse (swallow : bool) (L : lang) (s : list rune) : option (list comment) :=
+Definition parse (V : variant) (L : lang) (s : list rune) : option (list comment) :=
   match s with
   | [] => Some []
   | _ => let s' := if ends_with_nl s then s else s ++ [NL] in
-         lex (S (length s')) swallow L {| rest := s'; line := 1; col := 0 |} []
+         lex (S (length s')) V L {| rest := s'; line := 1; col := 0 |} []
   end.
 
 (* ---------- ChunkIterator ---------- *)
